@@ -445,7 +445,9 @@ class Histogram():
 
     def compute(self):
         """Yield histogram with context."""
-        yield (self._hist, self._cur_context)
+        # copy the context, because it belongs to the last filled value
+        # and must not be shared between several results
+        yield (self._hist, copy.deepcopy(self._cur_context))
 
     def reset(self):
         """Reset the histogram.
